@@ -6,6 +6,7 @@ from specs.base_mab import (FIT_PARAMS, INIT_PARAMS, status_fresh, forall_arms, 
 MEAN = '(val(self.arm_to_sum, %s) / val(self.arm_to_count, %s) if val(self.arm_to_count, %s) > 0 else 0)'
 MEAN_A = MEAN % ('a', 'a', 'a')
 TOTAL = 'msum_over(keys(self.arm_to_expectation), lambda b: %s)' % (MEAN % ('b', 'b', 'b'))
+POP_SHARE = 'implies(%s != 0, %s)' % (TOTAL, forall_arms('val(self.arm_to_expectation, a) == %s / %s' % (MEAN_A, TOTAL)))
 klass('_Popularity', fields={},
       # C01: the arm means normalised to sum to one (whenever some mean is non-zero)
       inv=['[stat.mean] True',        # replaces the greedy clause: a Popularity expectation is a share, not a mean
@@ -78,4 +79,7 @@ predict_contracts('popularity', '_Popularity', E1, EM,
 arm_change_contracts('_Popularity', ['arm_to_sum', 'arm_to_count', 'arm_to_expectation'],
                      'val(self.arm_to_sum, arm) == 0 and val(self.arm_to_count, arm) == 0 and '
                      'val(self.arm_to_expectation, arm) == 0', other_maps=['arm_to_sum', 'arm_to_count'],
-                     props='C01 C08', rem_req=['slen(self.arms) > 0'], rem_inv='INV~pop', pre_inv='INV~arms~pop')
+                     props='C01 C08', rem_req=['slen(self.arms) > 0'], rem_inv='INV~pop', pre_inv='INV~arms~pop',
+                     add_inv='INV~pop',
+                     # the shares of the other arms are untouched, the new arm's share is 0: still the normalised means
+                     add_ens=['[C01,pop.keep] implies(old(%s), %s)' % (POP_SHARE, POP_SHARE)])
